@@ -11,8 +11,11 @@ from .vote import is_f
 ENT = "MemStorageCore.entries"
 
 
+FIRST_LAST = [None, None]
+
+
 def _is_first(e):
-    if e[0] == "call" and e[1].endswith("MemStorageCore::first_index"):
+    if e[0] == "call" and (e[1] == FIRST_LAST[0] or e[1].endswith("MemStorageCore::first_index")):
         return True
     if is_f(e, "Entry.index") and contains(fld(ENT), e):
         return contains(("int", 0), e) or any(x[0] == "call" and x[1].endswith("::first") for x in walk(e))
@@ -20,11 +23,18 @@ def _is_first(e):
 
 
 def _is_last(e):
-    return e[0] == "call" and e[1].endswith("MemStorageCore::last_index")
+    return e[0] == "call" and (e[1] == FIRST_LAST[1] or e[1].endswith("MemStorageCore::last_index"))
+
+
+HAS_ENTRY = [None]
+
+
+def _is_has_entry(p):
+    return p == HAS_ENTRY[0]
 
 
 def _nonempty(l):
-    if l[0] == "is" and l[2] is True and l[1][0] == "call" and l[1][1].endswith("has_entry_at"):
+    if l[0] == "is" and l[2] is True and l[1][0] == "call" and _is_has_entry(l[1][1]):
         return True
     if l[0] == "in" and l[2] == frozenset(["Some"]) and l[1][0] == "call" and (l[1][1].endswith("::first") or l[1][1].endswith("::last")) and contains(fld(ENT), l[1]):
         return True
@@ -41,6 +51,8 @@ def _greater_than_snapshot(l):
 @obligation("MEMSTORE.index_guards", ["C19"], floor=5, kind="bounds-guard dominance for every indexing site",
             why="an index into the entry vector that is not range-guarded answers a query with a panic or with wrong data")
 def index_guards(cx):
+    HAS_ENTRY[0] = cx.sfx("MemStorageCore::has_entry_at")
+    FIRST_LAST[0], FIRST_LAST[1] = cx.sfx("MemStorageCore::first_index"), cx.sfx("MemStorageCore::last_index")
     n = 0
     for c in cx.prog.all_calls:
         if c.fn.crate != "raft" or "storage::" not in c.fn.key:
@@ -73,7 +85,7 @@ def index_guards(cx):
             x, base = sb[2], sb[3]
             cx.check(_is_first(base), key + ":base", "the offset base is the first index of the vector (found %s)" % show(base)[:80], c)
             def lower(l, x=x):
-                if l[0] == "is" and l[2] is True and l[1][0] == "call" and l[1][1].endswith("has_entry_at") and x in l[1][2]:
+                if l[0] == "is" and l[2] is True and l[1][0] == "call" and _is_has_entry(l[1][1]) and x in l[1][2]:
                     return True
                 if _greater_than_snapshot(l):
                     return True
@@ -83,7 +95,7 @@ def index_guards(cx):
                     return True
                 return False
             def upper(l, x=x):
-                if l[0] == "is" and l[1][0] == "call" and l[1][1].endswith("has_entry_at") and l[2] is True and x in l[1][2]:
+                if l[0] == "is" and l[1][0] == "call" and _is_has_entry(l[1][1]) and l[2] is True and x in l[1][2]:
                     return True
                 if _greater_than_snapshot(l):
                     return True   # commit <= last_index is the store's own invariant (assumption, see evidence)
